@@ -49,9 +49,31 @@ def cases(tier, seed, nlayers, nforce, rep):
         except RecursionError:
             rep.count("recursion-error(F3)")
             continue
+        except Exception as e:
+            rep.prop_fail.append(("Force.compute raised %s: %s" % (type(e).__name__, e), {"case": {"kind": "force-layer", "labels": labels, "opts": opts, "mode": mode, "layer": 0}}))
+            continue
         rep.count("force-layers=%d" % min(len(lls), 4))
         for j, l in enumerate(lls):
             out.append((l, {"kind": "force-layer", "labels": labels, "opts": opts, "mode": mode, "layer": j}))
+    # engine histories: nodes that carry positions / stubs / layer numbers of an earlier layout are laid out again (same engine
+    # re-configured, nodes registered again, handed to a fresh engine): every removeOverlap call of every compute is judged
+    import check_engine as E
+    rng = rng_for(seed, "layout-history")
+    for k in range(max(1, nforce // 3)):
+        ops, labelsA, o = E.gen_history(rng, tier)
+        mode = "exact" if k % 2 else "float"
+        try:
+            res = I.run_history(ops, mode, want_layer_lines=True)
+        except RecursionError:
+            rep.count("recursion-error(F3)")
+            continue
+        except Exception as e:
+            rep.prop_fail.append(("Force.compute raised %s in a history: %s" % (type(e).__name__, e), {"case": {"kind": "history-layer", "ops": ops, "mode": mode, "compute_no": 0, "layer": 0}}))
+            continue
+        for c, r in enumerate(res):
+            for j, l in enumerate(r[4]):
+                out.append((l, {"kind": "history-layer", "ops": ops, "mode": mode, "compute_no": c, "layer": j}))
+                rep.count("history-layer compute_no=%d" % min(c, 3))
     return out
 
 
@@ -66,6 +88,9 @@ def run(pid, tier, seed, replay=None):
         m = r["case"]
         if m["kind"] == "layer":
             line = I.run_layer([tuple(x) for x in m["items"]], m["opts"], m["mode"])
+        elif m["kind"] == "history-layer":
+            res = I.run_history([tuple(o) for o in m["ops"]], m["mode"], want_layer_lines=True)
+            line = res[m["compute_no"]][4][m["layer"]]
         else:
             _, lls, _, _ = I.run_force([tuple(x) for x in m["labels"]], m["opts"], m["mode"])
             line = lls[m["layer"]]
